@@ -630,6 +630,22 @@ pub fn apply(s: &mut Pool2, step: &Step, ctx: &mut Ctx) {
             ctx.trace(&format!("donate:{}:{:?}", r.outcome.kind(), after.reserves));
             global_invariants(s, ctx, &before, &after, r.outcome.is_ok(), "donate");
         }
+        Op::WithdrawDirect { coin, amount } => {
+            let denom = ["uaaa", "ubbb", "uccc", "ujunk"][*coin % 4];
+            let before = match observe(s) { Ok(o) => o, Err(e) => { ctx.fail("C01", "solvency", "queries_fail", None, e); return; } };
+            let msg = wasm_exec(&s.pair, &white_whale_std::pool_network::pair::ExecuteMsg::WithdrawLiquidity {}, vec![cosmwasm_std::coin(*amount, denom)]);
+            let r = tx(&mut s.app, who, vec![msg], Fault::None);
+            ctx.op("withdraw_direct_with_coin", r.outcome.kind());
+            let after = match observe(s) { Ok(o) => o, Err(e) => { ctx.fail("C01", "solvency", "queries_fail", None, e); return; } };
+            ctx.trace(&format!("withdraw_direct:{}:{:?}", r.outcome.kind(), after.reserves));
+            if r.outcome.is_ok() {
+                // the LP token of these pools is a cw20: no native coin is an LP token, so nothing may be paid out
+                ctx.eval("C01");
+                ctx.fail("C01", "withdraw_needs_lp", "native_coin_accepted_as_lp", None,
+                    format!("WithdrawLiquidity {{}} with {amount}{denom} attached succeeded on a pool whose LP token is a cw20; reserves {:?} -> {:?}, LP held by pool {} -> {}", before.reserves, after.reserves, before.lp_pair, after.lp_pair));
+            }
+            global_invariants(s, ctx, &before, &after, r.outcome.is_ok(), "withdraw_direct_with_coin");
+        }
         Op::Router { path, amount, min_receive, to, max_spread } => {
             crate::scen::pool2_router::do_router(s, ctx, actor, path, *amount, *min_receive, *to, max_spread, step.fault);
         }
